@@ -315,8 +315,14 @@ fn nib_len(n: u8) -> usize {
 /// Verify the upper-layer checksum of an encoded packet over the SCION pseudo-header taken from
 /// the packet's own address header.  Returns (verifies, folded sum, sum of pseudo-header only).
 fn l4_checksum_verifies(pkt: &[u8], hdr: usize, proto: u8) -> (bool, u32, u32) {
+    if pkt.len() < 12 {
+        return (false, 0, 0);
+    }
     let dl = nib_len(pkt[9] >> 4);
     let sl = nib_len(pkt[9] & 15);
+    if pkt.len() < 28 + dl + sl || pkt.len() < hdr {
+        return (false, 0, 0);
+    }
     let l4 = &pkt[hdr..];
     let mut a = oc_sum(0, &pkt[12..12 + 16 + dl + sl]);
     a = oc_sum(a, &(l4.len() as u32).to_be_bytes());
@@ -530,6 +536,7 @@ fn replay_case(case: &Value) -> Value {
         let proto = match kind.as_str() { "udp" => 17u8, "scmp" => 202u8, _ => 0 };
         let cks_off = if kind == "udp" { Some(hdr + 6) } else if kind == "scmp" { Some(hdr + 2) } else { None };
 
+        let clean: Option<Vec<u8>> = match &obs.to_vec { Ok(Ok(v)) => Some(v.clone()), _ => None };
         let check_bytes = |label: &str, got: &[u8], fill: Option<u8>, pvs: &mut Vec<Value>| {
             // P: announced size
             if got.len() != expect.len() {
@@ -583,11 +590,13 @@ fn replay_case(case: &Value) -> Value {
                     if first.is_none() {
                         first = Some(i);
                     }
-                    if let Some(f) = fill {
-                        // every bit that differs from the format carries the buffer's old value
-                        if (got[i] ^ expect[i]) & (got[i] ^ f) != 0 {
-                            stale = false;
-                        }
+                    if first == Some(i) {
+                        // "unwritten": the zero-initialised encoding agrees with the format here and every
+                        // differing bit carries the old value of the caller's buffer
+                        stale = match (fill, &clean) {
+                            (Some(f), Some(cl)) => cl.get(i) == Some(&expect[i]) && (got[i] ^ expect[i]) & (got[i] ^ f) == 0,
+                            _ => false,
+                        };
                     }
                 }
             }
@@ -699,7 +708,13 @@ fn replay(inp: &str, outp: &str) {
         if c.get("m").is_none() {
             continue;
         }
-        w.write(&replay_case(c));
+        // an output of the code under test that the monitors cannot even index is an observation,
+        // never a reason for the harness to abort
+        let r = catch(|| replay_case(c)).unwrap_or_else(|msg| {
+            json!({"built": true, "rep": c["e"]["rep"], "accepted": true, "valid": false, "kind": c["m"]["pl"]["k"], "drift": [],
+                   "pv": [{"key": "MalformedOutput:monitor-could-not-read-encoding", "what": format!("the encoder's output could not be examined: {msg}")}]})
+        });
+        w.write(&r);
     }
     w.finish();
 }
